@@ -111,7 +111,16 @@ func (rt *Transfer) receiveData(f *File, localFile *os.File) error {
 		local := filepath.Join(rt.Dest, f.Name)
 		rt.Logger.Printf("creating %s", local)
 	}
-	out, err := newPendingFile(rt.DestRoot, f.Name)
+	// Use a private handle of the destination root for the temporary file:
+	// when the generator fails first, Do returns while this goroutine is
+	// still receiving, the caller closes rt.DestRoot, and Cleanup could no
+	// longer remove the temporary file once the connection is closed.
+	tmpRoot, err := rt.DestRoot.OpenRoot(".")
+	if err != nil {
+		return err
+	}
+	defer tmpRoot.Close()
+	out, err := newPendingFile(tmpRoot, f.Name)
 	if err != nil {
 		return err
 	}
